@@ -4,7 +4,9 @@ from __future__ import annotations
 
 import random
 
-NAMES = ["a", "b", "c", "d", "ab", "", "a b", "'", '"', "\\", "é", "😀", "\n", "\x00", "_x", "A1"]
+NAMES = ["a", "b", "c", "d", "ab", "", "a b", "'", '"', "\\", "é", "😀", "\n", "\x00", "_x", "A1",
+         # every supplementary plane parity (surrogate arithmetic), and quotes at the ends
+         "\U00020000", "\U000e0001x", "\U0010ffff", "x\"", "\"x", "y'", "\\"]
 SIMPLE_NAMES = ["a", "b", "c", "d"]
 
 SCALARS = [
@@ -66,7 +68,7 @@ def quote_name(rng: random.Random, s: str, plain=False) -> str:
                 out.append("\\" + short[cp])
             else:
                 out.append("\\u" + _hex4(cp, rng))
-        elif not plain and rng.random() < 0.08:
+        elif not plain and rng.random() < (0.45 if cp > 0xFFFF else 0.08):
             if cp > 0xFFFF:
                 v = cp - 0x10000
                 out.append("\\u" + _hex4(0xD800 + (v >> 10), rng) + "\\u" + _hex4(0xDC00 + (v & 0x3FF), rng))
